@@ -21,6 +21,8 @@ AllEnv   == {"Edit", "Touch", "DeleteArt", "Truncate", "StripKey", "Replace", "M
 WideEnv  == AllEnv \cup {"EditProfile", "Expire"}
 IssuerEnv == AllEnv \cup {"SetIssuer"}
 FullEnv  == WideEnv \cup {"SetIssuer"}
+ConfigEnv == AllEnv \cup {"RemoveConfig", "AddConfig"}                     \* + configurations deleted and put back
+EverythingEnv == FullEnv \cup {"RemoveConfig", "AddConfig"}
 ExpiryFlagSets == SUBSET {"m", "c", "e"}
 NoProfile == {}
 LeafProfile == {"l"}
